@@ -442,8 +442,21 @@ ensures
             && final(self).res.error@.last().token == old(self).res.kind@.len(),                          //@C11:malformed-lexeme-diagnosed-on-token
 """)),
     ])
-    f.guard('tokenize', "pub fn tokenize(input: &str) -> impl Iterator<Item = Token> + '_ { let mut cursor = Cursor::new(input); std::iter::from_fn(move || { let token = cursor.advance_token(); if token.kind != TokenKind::Eof { Some(token) } else { None } }) }",
-            why='the chain lemma c14_chain_table_from_tokens restates this loop')
+    # D37 (tokenize): `let mut cursor = Cursor::new(input); std::iter::from_fn(move || { BODY })` -- BODY is the iterator's `next`; it is
+    # copied from /repo into the chain function on every run.  Any other frame falls back to the whole-text guard.
+    import os as _os3
+    from vlib.unit import REPO as _REPO3
+    _lx = open(_os3.path.join(_REPO3, L)).read()
+    _mt = re.search(r"pub fn tokenize\(input: &str\) -> impl Iterator<Item = Token> \+ '_ \{\n\s*let mut cursor = Cursor::new\(input\);\n\s*std::iter::from_fn\(move \|\| \{\n(.*?)\n    \}\)\n\}\n", _lx, re.S)
+    U.tokenize_frame_ok = bool(_mt)
+    # (D38: `e != TokenKind::Eof` / `e == TokenKind::Eof` on the derived PartialEq of a field-less variant is `!matches!(e, ..)` / `matches!(e, ..)`)
+    _d38 = lambda t: re.sub(r'([\w.]+)\s*==\s*TokenKind::Eof\b', r'matches!(\1, TokenKind::Eof)', re.sub(r'([\w.]+)\s*!=\s*TokenKind::Eof\b', r'!matches!(\1, TokenKind::Eof)', t))
+    U.tokenize_body = _d38(_mt.group(1)) if _mt else "        let token = cursor.advance_token();\n        if token.kind != TokenKind::Eof {\n            Some(token)\n        } else {\n            None\n        }"
+    if _mt:
+        U.build_log = getattr(U, 'build_log', []) + [('D37', "tokenize: the body of its `from_fn` closure (the iterator's `next`) is copied from /repo into c14_chain_table_from_tokens")]
+    else:
+      f.guard('tokenize', "pub fn tokenize(input: &str) -> impl Iterator<Item = Token> + '_ { let mut cursor = Cursor::new(input); std::iter::from_fn(move || { let token = cursor.advance_token(); if token.kind != TokenKind::Eof { Some(token) } else { None } }) }",
+              why='the chain lemma c14_chain_table_from_tokens restates this loop')
     # D37: LexedStr::new is `for token in tokenize(..) { BODY } TAIL`.  The header is restated by the chain function as "advance_token
     # until Eof" (tokenize's own text is guarded below / above); BODY and TAIL are copied from /repo on every run into that function, with
     # the nested str slice `&text[conv.offset..][..token.len as usize]` written as the stand-in slice_token_text(text, conv.offset, token.len).
@@ -462,10 +475,10 @@ ensures
     if not _mn:
       x.guard('new', "pub fn new(text: &'a str) -> LexedStr<'a> { let mut conv = Converter::new(text); for token in oq3_lexer::tokenize(&text[conv.offset..]) { let token_text = &text[conv.offset..][..token.len as usize]; conv.extend_token(&token.kind, token_text); } conv.finalize_with_eof() }",
               impl=r"LexedStr<'a>", why='the chain lemma c14_chain_table_from_tokens restates this loop')
-    U.raw(open(__file__.replace('units/lex.py', 'contracts/lex.lemmas.rs')).read().replace('@@NEW_LOOP_BODY@@', U.new_pieces[0]).replace('@@NEW_TAIL@@', U.new_pieces[1]), note='lemmas')
+    U.raw(open(__file__.replace('units/lex.py', 'contracts/lex.lemmas.rs')).read().replace('@@NEW_LOOP_BODY@@', U.new_pieces[0]).replace('@@NEW_TAIL@@', U.new_pieces[1]).replace('@@TOKENIZE_CLOSURE_BODY@@', U.tokenize_body), note='lemmas')
     for _fc in (U.file(L), U.file(K), U.file(X)):
         _fc.guard_rest('not under contract in this unit; text pinned (contracts/trusted_hashes.json)',
-                       skip=((r"<'a> LexedStr<'a>", 'new'), ("LexedStr<'a>", 'new')) if (U.new_frame_ok and _fc.rel == X) else ())
+                       skip=(((r"<'a> LexedStr<'a>", 'new'), ("LexedStr<'a>", 'new')) if (U.new_frame_ok and _fc.rel == X) else ()) + (('tokenize',) if (U.tokenize_frame_ok and _fc.rel == L) else ()))
     U.assumed_dep = [
         'char::is_ascii / is_ascii_digit: documented behaviour (assume_specification)',
         'unicode_xid::is_xid_start/is_xid_continue and unicode_properties::is_emoji_char: uninterpreted tables, plus the ASCII facts of UAX #31 (axiom_xid_start_ascii / axiom_xid_continue_ascii)',
